@@ -279,6 +279,8 @@ BadField(kind) ==
     [] kind = "ptime" -> Fld("Bad", 9, "timestamp")
     [] kind = "pdur" -> Fld("Bad", 9, "duration")
     [] kind = "mapkey" -> [MapOf(Fld("Bad", 9, "string")) EXCEPT !.mapkey = "int32"]
+    \* a field type the generator has no mapping for at all: a (proto2-style) group - it carries a type name like a message does
+    [] kind = "group" -> [Fld("Bad", 9, "bogus") EXCEPT !.ref = "Leaf"]
     [] OTHER -> Fld("Bad", 9, "string")
 \* where it sits below the selected type Poison: [msgs, path of the bad field]
 PoisonAt(pos, kind) ==
@@ -335,7 +337,7 @@ PrefixPoison(kind) ==
         mk("2excl", cfg(<<"Foo", "FooBar">>, <<"Foo.Bad">>), "FooBar"), mk("2excl", cfg(<<"Foo", "FooBar">>, <<"Foo.Bad">>), "Foo") >>
 
 Positions == <<"top", "nested", "list", "map", "embed", "oneof", "deep", "deep5">>
-BadKinds == <<"time", "dur", "mapkey", "ptime", "pdur">>
+BadKinds == <<"time", "dur", "mapkey", "ptime", "pdur", "group">>
 GenWholeShapes(long) ==
   IF long THEN FlattenSeq([i \in 1..(Len(Positions) * Len(BadKinds)) |->
                  WholeShapesFor(Positions[((i - 1) \div Len(BadKinds)) + 1], BadKinds[((i - 1) % Len(BadKinds)) + 1])])
@@ -343,6 +345,7 @@ GenWholeShapes(long) ==
   ELSE WholeShapesFor("top", "time") \o WholeShapesFor("nested", "mapkey") \o WholeShapesFor("list", "dur")
        \o WholeShapesFor("map", "time") \o WholeShapesFor("embed", "mapkey") \o WholeShapesFor("oneof", "dur") \o WholeShapesFor("deep", "time")
        \o SharedPoison("time") \o WholeShapesFor("nested", "ptime") \o WholeShapesFor("top", "pdur") \o WholeShapesFor("deep5", "time") \o PrefixPoison("mapkey")
+       \o WholeShapesFor("nested", "group") \o WholeShapesFor("top", "group")
 
 ---------------------------------------------------------------------------
 \* C16: command line and YAML are equivalent channels; C14: determinism
@@ -735,6 +738,10 @@ CustomShapes == <<
                                                                           !.computed = <<"Root.Cust">>, !.required = <<"Root.Zed">>]),
   With("u.cfg.map", <<Msg("Root", <<MapOf(Fld("Tags", 1, "string")), MapOf(Fld("Fb", 2, "bool")), Fld("Str", 3, "string"), MapOf(Fld("Fa", 4, "int32"))>>, <<>>)>>,
        CustCfg(<<KV("Root.Tags", "CustM"), KV("Root.Fb", "CustD")>>, <<KV("CustD", "SufD")>>)),
+  \* custom types of ANOTHER package, named by the proto option with their full import path (with and without a suffixes entry)
+  With("u.opt.path", <<Msg("Root", <<Fld("Str", 1, "string"), NonNull(Custom(Fld("Cust", 2, "string"), "verif/harness/ext/ct.Label")),
+                                     Rep(Custom(Fld("Custs", 3, "bool"), "verif/harness/ext/ct.Tag"))>>, <<>>)>>,
+       CustCfg(<<>>, <<KV("verif/harness/ext/ct.Tag", "SufT")>>)),
   \* two custom types which share their last name component: the suffixes entry of the bare one is not the other's
   With("u.cfg.samename", <<Msg("Root", <<Fld("Cust", 1, "string"), Fld("Extra", 2, "string"), Fld("Str", 3, "string")>>, <<>>)>>,
        CustCfg(<<KV("Root.Cust", "Traits"), KV("Root.Extra", "ext/wrappers.Traits"), KV("Root.Str", "wrappers.Traits")>>, <<KV("Traits", "LocalTraits")>>)) >>
